@@ -16,6 +16,11 @@ var hostilePieces = []string{
 	"admin", "user@example.com", "https://sp.example.com/", "urn:oasis:names:tc:SAML:2.0:", "a", "Z", "0", "=", "+", "/", "%20", "?", "#",
 }
 
+// edgeRunes: first / last code points of the ranges of the XML Char production, and characters that text handling
+// tends to treat specially although XML does not: U+FFFD (what invalid UTF-8 decodes to), NEL, NBSP, other Unicode
+// spaces, line / paragraph separator, zero-width and bidi controls, BOM inside text, non-characters' neighbours.
+var edgeRunes = []rune{0x20, 0x7f, 0x80, 0x85, 0xa0, 0x1680, 0x2000, 0x2003, 0x200b, 0x200d, 0x200e, 0x2028, 0x2029, 0x202e, 0x202f, 0x205f, 0x2060, 0x3000, 0xd7ff, 0xe000, 0xfeff, 0xfffc, 0xfffd, 0x10000, 0x1f600, 0xe0001, 0x10ffff, 0x130, 0x131, 0x17f, 0x212a, 0xdf, 0x3c2, 0x1e9e}
+
 // GenXMLChar draws one rune of the XML 1.0 Char production.
 func GenXMLChar() *rapid.Generator[rune] {
 	return rapid.OneOf(
@@ -51,9 +56,15 @@ func GenText(o TextOpts) *rapid.Generator[string] {
 		}
 		var sb strings.Builder
 		for i := 0; i < n; i++ {
-			if rapid.IntRange(0, 2).Draw(t, "kind") == 0 {
+			switch k := rapid.IntRange(0, 14).Draw(t, "kind"); {
+			case k < 5:
 				sb.WriteRune(GenXMLChar().Draw(t, "ch"))
-			} else {
+			case k == 5:
+				sb.WriteRune(rapid.SampledFrom(edgeRunes).Draw(t, "edgeRune"))
+			case k == 6 && len(CodeLiterals()) > 0:
+				// a string constant of the implementation itself (placeholder, attribute name, separator ...)
+				sb.WriteString(CodeLiterals()[rapid.IntRange(0, len(CodeLiterals())-1).Draw(t, "codeLiteral")])
+			default:
 				sb.WriteString(rapid.SampledFrom(hostilePieces).Draw(t, "piece"))
 			}
 		}
